@@ -1,5 +1,5 @@
 from pyvc import runner
-from contracts import signing, hashdata, sigalgs, subpacket_values, packets, subpackets, messages
+from contracts import signing, hashdata, sigalgs, subpacket_values, packets, subpackets, messages, tpk
 
 PID = 'C02'
 PENDING_TRIAGE = False
@@ -7,7 +7,7 @@ PENDING_TRIAGE = False
 
 def items():
     return signing.scenarios() + [s for s in subpacket_values.scenarios() + packets.scenarios() + subpackets.scenarios() if PID in getattr(s, 'props', ())] + [s for s in hashdata.scenarios() + sigalgs.scenarios() if PID in s.props] + \
-        [s for s in messages.scenarios() if PID in s.props]      # how a cleartext-signed message is written out ('after export ... it still verifies')
+        [s for s in messages.scenarios() + tpk.scenarios() if PID in s.props]      # copies of signatures (key.pubkey, copy.copy) carry every field; how a cleartext-signed message is written out ('after export ... it still verifies')
 
 
 def run(tier='quick', seed=0, only=None):
